@@ -695,7 +695,8 @@ int main (int argc, char **argv) {
         fclose (f);
       }
     }
-    obuf = "{\"st\":\"exit\"";
+    // on a line of its own: a child killed in the middle of a record leaves an unterminated line behind
+    obuf = "\n{\"st\":\"exit\"";
     if (timed_out) rec_kv_str ("kind", "timeout");
     else if (WIFSIGNALED (status)) { rec_kv_str ("kind", "signal"); rec_kv_int ("sig", WTERMSIG (status)); }
     else { rec_kv_str ("kind", "exit"); rec_kv_int ("code", WEXITSTATUS (status)); }
